@@ -23,6 +23,7 @@ func init() {
 
 func runC17(p *eng.Prog, r *eng.Report, tier string) {
 	c := &cx{p, r, tier}
+	c.r.Floor("C17.18", "returns without token and error in the styling scanners", r19NoSilentAdvance(c, "C17.18"), 2)
 	c.r.Floor("C17.17", "comparisons of a buffer length in the styling scanners", r18WaitsDoNotDependOnBufferedLength(c, "C17.17"), 3)
 	c.r.Note("C17.16: %d range loops over strings in package styling", r17RuneLengthsInBytes(c, "C17.16"))
 	c17QuoteChain(c, "C17.10")
